@@ -3,6 +3,7 @@ package reflectwalk
 import (
 	"encoding/binary"
 	"errors"
+	"fmt"
 	"net"
 	"reflect"
 	"sort"
@@ -414,6 +415,43 @@ func EmptyCap(rr dns.RR, containers bool, keep func() bool) (changed bool) {
 	return
 }
 
+// AltSpell gives every field of the RDATA that has more than one accepted spelling in a
+// hand-built record another one than Populate's (the canonical one that Unpack and the parser
+// produce): the empty salt of NSEC3 / NSEC3PARAM as "-" (with SaltLength 0), hex fields in upper
+// case, base32hex fields in lower case, the first letter of an embedded name as \DDD.  The value
+// -- what Pack writes -- is that of some well-formed record; only the spelling is unusual, which
+// is what tempts an operation to normalise its argument in place.
+func AltSpell(rr dns.RR) (changed bool) {
+	_, cells := WalkCells(rr)
+	for _, c := range cells {
+		if c.Ref || c.Kind != reflect.String || strings.Contains(c.Path, ".Hdr.") {
+			continue
+		}
+		old := c.V.String()
+		nw := old
+		switch {
+		case c.Tag == "size-hex" && strings.HasSuffix(c.Path, "Salt"):
+			nw = "-"
+			if f := reflect.ValueOf(rr).Elem().FieldByName("SaltLength"); f.IsValid() && f.CanSet() {
+				f.SetUint(0)
+			}
+		case c.Tag == "hex" || c.Tag == "size-hex":
+			nw = strings.ToUpper(old)
+		case c.Tag == "base32" || c.Tag == "size-base32":
+			nw = strings.ToLower(old)
+		case c.Tag == "domain-name" || c.Tag == "cdomain-name":
+			if len(old) > 1 && (old[0] >= 'A' && old[0] <= 'Z' || old[0] >= 'a' && old[0] <= 'z') {
+				nw = fmt.Sprintf("\\%03d%s", old[0], old[1:])
+			}
+		}
+		if nw != old {
+			c.V.SetString(nw)
+			changed = true
+		}
+	}
+	return
+}
+
 func roundTrips(rr dns.RR) bool {
 	b := make([]byte, dns.Len(rr)+64)
 	off, err := dns.PackRR(rr, b, 0, nil, false)
@@ -435,6 +473,7 @@ type Variant struct {
 }
 
 // Variants returns the kind itself and its variants: #lc (lower-case owner), #unsorted,
+// #altspell (RDATA fields in another accepted spelling, see AltSpell),
 // #emptycap (leaf slices len 0 / cap > 0), #emptyall (container slices too).
 func Variants(k Kind) []Variant {
 	vs := []Variant{{Kind: k}}
@@ -450,6 +489,7 @@ func Variants(k Kind) []Variant {
 	}
 	add("#lc", func(rr dns.RR) bool { LowerOwner(rr); return true }, nil)
 	add("#unsorted", Unsort, nil)
+	add("#altspell", AltSpell, nil)
 	greedy := func(containers bool) func() dns.RR {
 		return func() dns.RR {
 			rr := k.Build()
